@@ -10,6 +10,8 @@ over the HISTORY of commits
   globally non-monotone commit timestamps are covered; a batch commit at one fresh timestamp is a
   sequence of such steps with pairwise distinct keys, `C01_reach_commit`),
 * memtable flushes,
+* re-orderings of level 0 (`resort`: what `Open` does when it sorts L0 by file id — nothing below
+  depends on the order of the L0 tables),
 * compactions the production pickers can choose (`validChoice`, checked at run time against the
   implementation) whose output tables are cut only where the user key changes;
 `hist` lists every entry ever committed, `dmax` / `nowmax` are the largest `discardTs` / clock any
@@ -24,6 +26,9 @@ inductive Reach (nlev : Nat) : List Ent → Nat → Nat → Lsm → Prop
       (hfresh : ∀ x ∈ hist, x.key = e.key → x.ver < e.ver) : Reach nlev (e :: hist) dm nm (s.putEnt e)
   | flush {hist : List Ent} {dm nm : Nat} {s : Lsm} (r : Reach nlev hist dm nm s) (id : Nat) :
       Reach nlev hist dm nm (s.flush id)
+  | resort {hist : List Ent} {dm nm : Nat} {s : Lsm} (r : Reach nlev hist dm nm s) {l0 l0' : List Tbl}
+      {rest : List (List Tbl)} (hl : s.levels = l0 :: rest) (hp : l0'.Perm l0) :
+      Reach nlev hist dm nm { s with levels := l0' :: rest }
   | compact {hist : List Ent} {dm nm : Nat} {s s' : Lsm} (r : Reach nlev hist dm nm s) (cd : CompactDef)
       (d n now' : Nat) (hi : ChoiceIdxOk s cd) (htop : cd.top ≠ []) (hvc : validChoice s cd = true)
       (hdp : cd.dropPrefixes = []) (hs : s.compact cd d n now' = some s')
@@ -70,35 +75,49 @@ theorem mem_allEntries_compact' {s s' : Lsm} {cd : CompactDef} {d n now : Nat} (
 
 end LL
 
-/-- what holds in every reachable state -/
+/-- committed versions are positive `uint64`s -/
+def HistOk (hist : List Ent) : Prop := ∀ e ∈ hist, 0 < e.ver ∧ e.ver ≤ maxU64
+
+/-- what holds in every reachable state: it is good, the history is well formed, and everything
+    stored was committed. (No statement about the ORDER of the L0 tables: since the F28 repair of the
+    picker nothing depends on it.) -/
 def ReachInv (hist : List Ent) (s : Lsm) : Prop :=
-  LsmGood s ∧ L0SF s ∧ ∀ e ∈ s.allEntries, e ∈ hist
+  LsmGood s ∧ HistOk hist ∧ ∀ e ∈ s.allEntries, e ∈ hist
 
 theorem C01_reach_inv {nlev : Nat} {hist : List Ent} {dm nm : Nat} {s : Lsm} (r : Reach nlev hist dm nm s) :
     ReachInv hist s := by
   induction r with
-  | init => exact ⟨LL.init_good nlev, C14_l0sf_init nlev, fun e he => absurd he (LL.init_no_entries nlev e)⟩
+  | init => exact ⟨LL.init_good nlev, fun e he => by simp at he, fun e he => absurd he (LL.init_no_entries nlev e)⟩
   | put _ e hpos hmax hfresh ih =>
-    obtain ⟨⟨h, hv, hl, hu, himm⟩, hsf, hsub⟩ := ih
+    obtain ⟨⟨h, hv, hl, hu, himm⟩, hho, hsub⟩ := ih
     refine ⟨⟨LL.put_inv h hpos, LL.put_verBound hv hmax,
       LL.put_layeredX hl (fun x hx hk => Nat.le_of_lt (hfresh x (hsub x hx) hk)),
-      LL.put_keyVerUnique hu (fun x hx hk => hfresh x (hsub x hx) hk), himm⟩, C14_l0sf_put hsf e, ?_⟩
-    intro x hx
-    rcases LL.mem_allEntries_put hx with rfl | hx'
-    · simp
-    · exact List.mem_cons_of_mem _ (hsub x hx')
+      LL.put_keyVerUnique hu (fun x hx hk => hfresh x (hsub x hx) hk), himm⟩, ?_, ?_⟩
+    · intro x hx
+      rcases List.mem_cons.mp hx with rfl | hx'
+      · exact ⟨hpos, hmax⟩
+      · exact hho x hx'
+    · intro x hx
+      rcases LL.mem_allEntries_put hx with rfl | hx'
+      · simp
+      · exact List.mem_cons_of_mem _ (hsub x hx')
   | @flush hist dm nm s _ id ih =>
-    obtain ⟨⟨h, hv, hl, hu, himm⟩, hsf, hsub⟩ := ih
+    obtain ⟨⟨h, hv, hl, hu, himm⟩, hho, hsub⟩ := ih
     refine ⟨⟨C14_flush_inv h id, fun x hx => hv x ((LL.mem_allEntries_flush s id x).mp hx),
-      C14_flush_layeredX hl himm id, C14_flush_keyVerUnique hu id, ?_⟩, C14_l0sf_flush hl hsf id,
+      C14_flush_layeredX hl himm id, C14_flush_keyVerUnique hu id, ?_⟩, hho,
       fun x hx => hsub x ((LL.mem_allEntries_flush s id x).mp hx)⟩
     rcases LL.flush_eq_self_or s id with he | ⟨_, _, _, _, he⟩ <;> rw [he] <;> exact himm
+  | resort _ hl hp ih =>
+    obtain ⟨⟨h, hv, hlx, hu, himm⟩, hho, hsub⟩ := ih
+    exact ⟨⟨LL.resort_inv h hl hp, fun x hx => hv x ((LL.mem_allEntries_resort hl hp x).mp hx),
+      LL.resort_layeredX hlx hl hp, LL.resort_keyVerUnique hu hl hp, himm⟩, hho,
+      fun x hx => hsub x ((LL.mem_allEntries_resort hl hp x).mp hx)⟩
   | compact _ cd d n now' hi htop hvc hdp hs hcut ih =>
-    obtain ⟨⟨h, hv, hl, hu, himm⟩, hsf, hsub⟩ := ih
+    obtain ⟨⟨h, hv, hl, hu, himm⟩, hho, hsub⟩ := ih
     have hc := C12_validChoice_compactOk h hv hi htop hvc
     refine ⟨⟨C14_compact_inv h hv hc hs hcut, C14_compact_verBound h hv hc hs,
-      C14_compact_layeredX h hl hc (fun hk => C12_validChoice_topsOldest h hsf hi.1 htop hvc hk) hs,
-      C14_compact_keyVerUnique h hu hc hs, ?_⟩, C14_l0sf_compact h hc hsf hs,
+      C14_compact_layeredX h hl hc (fun hk => C12_validChoice_topsOldest h hi.1 htop hvc hk) hs,
+      C14_compact_keyVerUnique h hu hc hs, ?_⟩, hho,
       fun x hx => hsub x (LL.mem_allEntries_compact' h hc hs hx)⟩
     obtain ⟨_, _, rfl⟩ := LL.compact_some hs; exact himm
 
@@ -153,9 +172,17 @@ theorem C01_reach_reads {nlev : Nat} {hist : List Ent} {dm nm : Nat} {s : Lsm} (
     obtain ⟨⟨h, _, _, _, himm⟩, _, _⟩ := C01_reach_inv r
     rw [C12_flush_reads_noimm h himm]
     exact ih hts hnow
+  | @resort hist dm nm s r l0 l0' rest hl hp ih =>
+    obtain ⟨⟨h, _, _, hu, _⟩, _, _⟩ := C01_reach_inv r
+    have hf : TblsFun l0 := by
+      intro a ha b hb x hx y hy hk hv
+      exact hu x (LL.mem_allEntries.mpr (.inr (.inr ⟨0, l0, a, by rw [hl]; rfl, ha, hx⟩)))
+        y (LL.mem_allEntries.mpr (.inr (.inr ⟨0, l0, b, by rw [hl]; rfl, hb, hy⟩))) hk hv
+    rw [LL.resort_get h hl hp hf]
+    exact ih hts hnow
   | @compact hist dm nm s s' r cd d n now' hi htop hvc hdp hs hcut ih =>
-    obtain ⟨⟨h, hv, hl, hu, _⟩, hsf, _⟩ := C01_reach_inv r
-    rw [C12_compact_reads_valid h hv hl hu hsf hi htop hvc hdp hs (by omega) (by omega)]
+    obtain ⟨⟨h, hv, hl, hu, _⟩, _, _⟩ := C01_reach_inv r
+    rw [C12_compact_reads_valid h hv hl hu hi htop hvc hdp hs (by omega) (by omega)]
     exact ih (by omega) (by omega)
 
 /-- the committed history is itself well formed: an internal key determines the entry -/
@@ -171,6 +198,7 @@ theorem C01_reach_hist_unique {nlev : Nat} {hist : List Ent} {dm nm : Nat} {s : 
     · have := hfresh x hx' hk; omega
     · exact ih x hx' y hy' hk hv
   | flush _ _ ih => exact ih
+  | resort _ _ _ ih => exact ih
   | compact _ _ _ _ _ _ _ _ _ _ _ ih => exact ih
 
 theorem C01_reach_commit_aux {nlev : Nat} {hist : List Ent} {dm nm : Nat} {s : Lsm}
@@ -275,5 +303,21 @@ example : Reach 2 [C01_reachE] 0 0 C01_reachS3 ∧
     Reach.compact r2 C01_reachCd 0 1 0 (by decide) (by decide) (by decide) rfl (by lsm_decide)
       (by intro new0 h; rw [hsplit] at h; cases h; simp [withIds, C01_reachCd, CutsAtKeyChange])
   exact ⟨r3, C01_reach_reads r3 (by decide) (by decide) [1]⟩
+
+/-! non-vacuity of `resort`: two flushed tables, L0 re-ordered as a reopen may do -/
+def C01_reachE2 : Ent := ⟨[2], 2, 0, 0, 0, [8]⟩
+
+example : ∃ s, Reach 2 [C01_reachE2, C01_reachE] 0 0 s ∧
+    s.levels = [[{ ents := [C01_reachE2], id := 6 }, { ents := [C01_reachE], id := 5 }], []] ∧
+    visible 0 (s.get [1] 4) = visible 0 (newestLE [C01_reachE2, C01_reachE] [1] 4) := by
+  have r1 : Reach 2 [C01_reachE] 0 0 ((Lsm.init 2).putEnt C01_reachE) :=
+    Reach.put Reach.init C01_reachE (by decide) (by decide) (by simp)
+  have r2 := Reach.flush r1 5
+  have r3 := Reach.put r2 C01_reachE2 (by decide) (by decide) (by decide)
+  have r4 := Reach.flush r3 6
+  have r5 := Reach.resort r4 (l0 := [{ ents := [C01_reachE], id := 5 }, { ents := [C01_reachE2], id := 6 }])
+    (l0' := [{ ents := [C01_reachE2], id := 6 }, { ents := [C01_reachE], id := 5 }]) (rest := [[]]) (by decide)
+    (List.Perm.swap _ _ _)
+  exact ⟨_, r5, rfl, C01_reach_reads r5 (by decide) (by decide) [1]⟩
 
 end Badger
